@@ -13,7 +13,7 @@
           ordered outputs-then-inputs;
       (e) forall c, expand (contract_einsum (merge (circuit_net c) |0..0>)) = column0 (cmat nw c).
     They are covered by the correspondence/oracle run only (checks/C05.py). *)
-From Qib Require Import Embed.CircProofs Embed.HeapProofs Embed.HeapObs Base.Inst.
+From Qib Require Import Embed.CircProofs Embed.HeapProofs Embed.HeapObs Embed.IdentProofs Base.Inst.
 From Run Require Import GenCirc.
 
 (** (a) the circuit matrix is the product of the embedded gate matrices in application order:
@@ -169,6 +169,36 @@ Proof.
   apply (circuit_cache_not_reset_by_prepend_circuit_refuted gen_copy_deep gen_ctor_copies inval alias H).
 Qed.
 Print Assumptions C05_cache_not_reset_by_a_builder_call_refuted.
+
+(** (b') WHAT identifies a gate inside one run.  The statevector loop recomputes the register matrix of every gate
+    (translator: run is the five-statement loop).  A per-run memo of these matrices keyed on [keyeq] is invisible
+    exactly when equal keys imply equal register matrices; a key that forgets the ORDER of the wires (gate class,
+    matrix and the SET of particles) is refuted by  X(0); CNOT(0,1); CNOT(1,0) - the register matrix of a gate
+    depends on the order of its wires.  The same holds for any memo of a view keyed on less than the query
+    ([memo_coarse_key_refuted]).  checks/C05.py runs, for every kind of gate, families of gates that differ in ONE
+    coordinate (order of the particles, one particle, its field, a parameter, the control state, the class, the class
+    of the target, the memory layout of the matrix) through all four views. *)
+Theorem C05_gate_memo_needs_a_faithful_key :
+  (forall (K : Scalar) (L : ScalarLaws K) (keyeq : cgate K -> cgate K -> bool) nw (c : circuit K),
+     (forall g h, keyeq g h = true -> meq nw (E nw h) (E nw g)) ->
+     forall r, length r = nw -> run_statevector_memo keyeq nw c r = run_statevector nw c r) /\
+  (exists c : circuit ZI,
+     map (run_statevector_memo keyeq_matrix_and_wire_set 2 c) (all_bits 2) <> map (run_statevector 2 c) (all_bits 2)) /\
+  (exists (G : BMx ZI), (forall w, In w [0; 1]%nat <-> In w [1; 0]%nat) /\
+     dense 2 (embed (K:=ZI) 2 [0; 1]%nat G) <> dense 2 (embed (K:=ZI) 2 [1; 0]%nat G)) /\
+  (forall (S E Q V : Type) (step : S -> E -> S) (view : S -> Q -> V) qeqb inval alias s q1 q2,
+     qeqb q2 q1 = true -> view s q2 <> view s q1 ->
+     mobs _ _ _ (mrun S E Q V step view qeqb inval alias s [Query q1; Query q2])
+     <> map Some (trace S E Q V step view s [] [Query q1; Query q2])).
+Proof.
+  split; [|split; [|split]].
+  - intros K L keyeq nw c H r Hr. apply (statevector_memo_faithful_key keyeq nw c H r Hr).
+  - pose proof statevector_memo_keyed_on_wire_set_refuted as H. cbv zeta in H. destruct H as [H _].
+    eexists. exact H.
+  - pose proof embed_depends_on_wire_order as H. cbv zeta in H. eexists. exact H.
+  - intros. apply memo_coarse_key_refuted; assumption.
+Qed.
+Print Assumptions C05_gate_memo_needs_a_faithful_key.
 
 (** non-vacuity: H-free exact instance: X on wire 2, then CNOT (control wire 0 negated, target
     wire 2) on a 3-wire register; product order, first column, unit norm *)
